@@ -11,6 +11,12 @@ import Pyunicorn.Model.Window
   | `im=<months>` (indices_selected_months) | `Wc` (set_window(window()))
   | `N` (continue with ClimateData(obj.observable(), obj.grid, …))
   | `sh=<perms>` (shuffled_anomaly, one permutation per column, rows separated by `;`)
+  | `cs` (`__cache_state__()`: the counter `_mut_window`)
+
+`runreg <c> <anomflag> <init> <time> <latgrid> <longrid> <obs> <op>*`: the same on a file
+loaded from a regular grid (`Data.Load`): the node sequences are computed by the model.
+
+`ry <T> <c>`: `int(T / c)` as evaluated in IEEE double (`rangeYearsF`), and `T // c`.
 
 Answer: the outputs of the operations joined by `|`.
 -/
@@ -46,6 +52,7 @@ def doOp (o : Obj) (tok : String) : String × Obj :=
     let (r, o') := o.setGlobal
     (if r then "raise:ValueError" else "ok", o')
   else if tok == "X" then ("ok", o.evict fun _ => false)
+  else if tok == "cs" then (toString o.ver, o)
   else if tok == "o" then (showMatS T N o.cur.obs, o)
   else if tok == "g" then
     (showRats o.cur.time ++ "~" ++ showRats o.cur.lat ++ "~" ++ showRats o.cur.lon, o)
@@ -106,6 +113,20 @@ def answer (toks : List String) : String :=
       match Obj.init full c.toNat! (fl == "1") w with
       | none => "raise:ValueError"
       | some o => join ("ok" :: runOps o ops) "|"
+  | "runreg" :: c :: fl :: init :: time :: latg :: long :: obs :: ops =>
+    let full : View := loadRegular (rats time) (rats latg) (rats long) (ratMat obs)
+    let w : Option (Option Win) :=
+      if init == "G" then some none
+      else if init.startsWith "W=" then (parseWin (init.drop 2).toString).map some else none
+    match w with
+    | none => "bad-init"
+    | some w =>
+      match Obj.init full c.toNat! (fl == "1") w with
+      | none => "raise:ValueError"
+      | some o => join ("ok" :: runOps o ops) "|"
+  | ["ry", T, c] =>
+    if c.toNat! = 0 then "raise:ZeroDivisionError"
+    else s!"{rangeYearsF T.toNat! c.toNat!} {T.toNat! / c.toNat!}"
   | _ => "bad-request"
 
 def main : IO Unit := runDriver answer
